@@ -9,6 +9,9 @@ CHECK = {
         {"fn": P + "vC47_step", "opts": HOPTS,
          "cases_quick": {"buckets": [1, 2], "bucketNanos": [16], "halfOpenMax": [1, 2]},
          "cases_thorough": {"buckets": [1, 2, 3], "bucketNanos": [1, 16], "halfOpenMax": [1, 2]}},
+        {"fn": P + "vC47_complete", "opts": HOPTS,
+         "cases_quick": {"buckets": [1, 2], "bucketNanos": [16], "halfOpenMax": [1]},
+         "cases_thorough": {"buckets": [1, 2, 3], "bucketNanos": [1, 16], "halfOpenMax": [1, 2]}},
         {"fn": P + "vC47_history", "opts": HOPTS, "tiers": ("thorough",),
          "cases": {"buckets": [1, 2], "bucketNanos": [16], "halfOpenMax": [1], "calls": [2], "nested": [0]},
          "cover_optional": ("closed-again", "rejected-halfopen-full", "half-open", "opened", "rejected-open")},
@@ -24,10 +27,10 @@ CHECK = {
     "opts": {"unwind": 10, "select_precise": True},
     "explanation": "CircuitBreaker.Execute / tryAcquire / release / invoke / record / transitionTo / State, bucketWindow.add / advanceLocked / hardResetLocked / totalsLocked / reset / snapshot, newBuckets, NewCircuitBreaker and options.Sanitize are executed symbolically with an injected harness clock (arbitrary non-decreasing; advances between calls and while the protected function runs). "
                    "vC47_step: ONE call from an arbitrary breaker state (state, open deadline, probe tokens held by other in-flight calls, ring contents on the bucket grid with <= 1 success and <= 1 failure per bucket), symbolic failure rate (any double in [0,1]), minRequests 1..8, open timeout, outcome success/failure/caller-cancel/context-already-done; expected admission, result, next state, open deadline, token count and window totals are written from the property. "
-                   "vC47_buckets: one add() from an arbitrary ring state (counts < 2^20) against per-bucket semantics incl. the representation invariant. vC47_history (thorough): 2 calls from a fresh breaker (buckets 1,2), and 2 calls each with a further overlapping call made from inside it (buckets 1), against an event-log model. "
+                   "vC47_complete: the completion half of Execute alone - real record(outcome) (+ release() for a probe) from an arbitrary state INCLUDING Open and HalfOpen (a call admitted earlier finishing after other callers changed the state): Open stays Open with its deadline untouched, only a half-open sample below the threshold closes. vC47_buckets: one add() from an arbitrary ring state (counts < 2^20) against per-bucket semantics incl. the representation invariant. vC47_history (thorough): 2 calls from a fresh breaker (buckets 1,2), and 2 calls each with a further overlapping call made from inside it (buckets 1), against an event-log model. "
                    "vC47_probes (Mode C): 2 (thorough: 3) concurrent callers on an open breaker whose timeout elapsed, all interleavings with <= 3 context switches per thread: never more than halfOpenMaxCalls protected functions in flight, every token returned. vC47_sanitize: Sanitize yields valid options for arbitrary raw options.",
     "bounds": {"step": "buckets 1..3 (quick 1,2), bucket duration 16 ns (thorough also 1 ns), halfOpenMaxCalls 1..2, per-bucket counts <= 1 (window total <= 7), times < 2^41 ns", "history": "2 calls", "probes": "quick 2 callers cap 1; thorough 3 callers cap 1,2; 3 rounds",
                "float": "int->float64 conversions and the quotient fail/total are tabulated over 0..8 (bound proven as an obligation); the rate comparison is IEEE double"},
-    "assumptions": ["the injected clock is non-decreasing and is not advanced between the reads inside one breaker operation", "failure rate is not NaN in the state-machine entries (NaN is the subject of finding C47-1)",
+    "assumptions": ["the injected clock is non-decreasing and is not advanced between the reads inside one breaker operation", "failure rate is not NaN in the state-machine entries",
                     "vC47_step pre-states are over-approximate: every reachable breaker state is included"],
 }
